@@ -97,9 +97,11 @@ def generate(ctx):
         ops.append({"op": "update", "clear": True})
         ops.append({"op": "update_twice"})
         inside = rng.random() < 0.7
-        yield {"part": "algebra", "bound": bound, "half": rng.choice(["both", "upper", "lower", "full"]),
+        mn_ = rng.choice([-0.5, 0.0, -2.0, round(rng.uniform(-3.0, 1.0), 3)])
+        limits = [rng.choice([mn_ + 2.0, mn_ + 1.0, round(mn_ + rng.uniform(0.2, 4.0), 3)]), mn_]
+        yield {"part": "algebra", "bound": bound, "limits": limits, "half": rng.choice(["both", "upper", "lower", "full"]),
                # a fractional power of a negative distance is NaN: outside the limits only integer powers are meaningful
-               "power": rng.choice([1.0, 2.0, 0.5, 3.0]) if inside else rng.choice([1.0, 2.0, 3.0]), "reduction": rng.choice(REDUCTIONS),
+               "power": rng.choice([1.0, 2.0, 0.5, 3.0, round(rng.uniform(0.3, 3.5), 3)]) if inside else rng.choice([1.0, 2.0, 3.0]), "reduction": rng.choice(REDUCTIONS),
                "red_via": rng.choice(["constructor", "accumulator"]), "dtype": rng.choice(["float32", "float64"]),
                "inside": inside, "seed": rng.randrange(1 << 30), "ops": ops,
                "shape": [rng.randint(1, 3), rng.randint(1, 4)]}
@@ -145,7 +147,7 @@ def _configure(ctx, conn, desc, spy):
         if fn is not None:
             for nm in upd.names:
                 getattr(upd, nm).reduction(fn)
-    mx, mn = 1.5, -0.5
+    mx, mn = desc.get("limits", [1.5, -0.5])
     kind, half, power = desc["bound"], desc["half"], desc["power"]
     if kind != "none":
         for nm in upd.names:
